@@ -102,6 +102,19 @@ def misuse_battery(seed):
         {"op": "P.VarTimeDoubleScalarBaseMult", "args": ["v", "k", "a", "k2"], "init": {"v": g(), "k": ptreplay.scalar_words(0), "a": Z, "k2": ptreplay.scalar_words(0)}},
         {"op": "P.VarTimeDoubleScalarBaseMult", "args": ["v", "k", "a", "k2"], "init": {"v": g(), "k": k(), "a": Z, "k2": k()}},
     ]
+    # the same uninitialized object in several positions
+    ops += [
+        {"op": "P.Equal", "args": ["a", "a"], "init": {"a": Z}},
+        {"op": "P.Add", "args": ["v", "a", "a"], "init": {"v": g(), "a": Z}}, {"op": "P.Add", "args": ["a", "a", "a"], "init": {"a": Z}}, {"op": "P.Add", "args": ["a", "a", "b"], "init": {"a": Z, "b": g()}},
+        {"op": "P.Add", "args": ["a", "b", "a"], "init": {"a": Z, "b": g()}},
+        {"op": "P.Subtract", "args": ["v", "a", "a"], "init": {"v": g(), "a": Z}}, {"op": "P.Subtract", "args": ["a", "a", "a"], "init": {"a": Z}},
+        {"op": "P.Negate", "args": ["a", "a"], "init": {"a": Z}}, {"op": "P.MultByCofactor", "args": ["a", "a"], "init": {"a": Z}},
+        {"op": "P.ScalarMult", "args": ["a", "k", "a"], "init": {"k": k(), "a": Z}},
+        {"op": "P.VarTimeDoubleScalarBaseMult", "args": ["a", "k", "a", "k2"], "init": {"k": k(), "a": Z, "k2": k()}},
+        {"op": "P.MultiScalarMult", "args": ["a", "k|k2", "a|a"], "init": {"k": k(), "k2": k(), "a": Z}},
+        {"op": "P.VarTimeMultiScalarMult", "args": ["a", "k|k2", "a|a"], "init": {"k": k(), "k2": k(), "a": Z}},
+        {"op": "P.VarTimeMultiScalarMult", "args": ["v", "k|k", "a|a"], "init": {"v": g(), "k": k(), "a": Z}},
+    ]
     for op in ("P.MultiScalarMult", "P.VarTimeMultiScalarMult"):
         for n in (1, 2, 3):
             for bad in range(n):
@@ -164,6 +177,16 @@ def run(chk):
                         return [h.point(path, "R"), ss, ps]
                     items.append(("%s n=%d bad=%d" % (meth, n, bad), lambda meth=meth, fname=fname, build=build, n=n, bad=bad: expect_panic(base, chk, "%s[n=%d, points[%d] uninitialized]" % (meth, n, bad), fname, build)))
 
+            for recv_alias in (False, True):
+                def build_same(h, path, recv_alias=recv_alias):
+                    zero = h.point(path, None)
+                    sc = [h.scalar(path, "k%d" % i)[0] for i in range(2)]
+                    ss, _ = h.ptr_slice(path, sc, "Scalar")
+                    ps, _ = h.ptr_slice(path, [zero, zero], "Point")
+                    return [zero if recv_alias else h.point(path, "R"), ss, ps]
+                tag = "n=2, both points are one uninitialized object%s" % (", which is also the receiver" if recv_alias else "")
+                items.append(("%s %s" % (meth, tag), lambda meth=meth, fname=fname, build_same=build_same, tag=tag: expect_panic(base, chk, "%s[%s]" % (meth, tag), fname, build_same)))
+
             def build_len(h, path):
                 ls = h.dom.input("len(scalars)", 0, 1 << 30)
                 lp = h.dom.input("len(points)", 0, 1 << 30)
@@ -174,18 +197,33 @@ def run(chk):
             items.append(("%s lens" % meth, lambda meth=meth, fname=fname, build_len=build_len: expect_panic(base, chk, "%s[len(scalars) != len(points), both symbolic]" % meth, fname, build_len)))
         else:
             f = prog.fn(fname)
-            for bad in pos:
-                def build(h, path, f=f, bad=bad):
+            ptpos = [i for i, p in enumerate(f["params"]) if p["type"] == "*" + E + "Point"]
+            # every non-empty set of input positions holds the SAME uninitialized object (aliasing), optionally together
+            # with the receiver (when the receiver is not itself an input position)
+            import itertools
+            variants = []
+            for r_ in range(1, len(pos) + 1):
+                for S in itertools.combinations(pos, r_):
+                    variants.append((S, False))
+                    if 0 not in pos and 0 in ptpos:
+                        variants.append((S, True))
+            for S, with_recv in variants:
+                def build(h, path, f=f, S=S, with_recv=with_recv):
                     args = []
+                    zero = h.point(path, None)
                     for i, p in enumerate(f["params"]):
                         if p["type"] == "*" + E + "Point":
-                            args.append(h.point(path, None if i == bad else "P%d" % i))
+                            if i in S or (with_recv and i == 0):
+                                args.append(zero)
+                            else:
+                                args.append(h.point(path, "P%d" % i))
                         elif p["type"] == "*" + E + "Scalar":
                             args.append(h.scalar(path, "k%d" % i)[0])
                         else:
                             raise X.ExecError("param type " + p["type"])
                     return args
-                items.append(("%s pos %d" % (meth, bad), lambda meth=meth, fname=fname, build=build, bad=bad: expect_panic(base, chk, "%s[input #%d uninitialized]" % (meth, bad), fname, build)))
+                tag = "inputs %s are one uninitialized Point%s" % (list(S), " that is also the receiver" if with_recv else "") if (len(S) > 1 or with_recv) else "input #%d uninitialized" % S[0]
+                items.append(("%s %s" % (meth, tag), lambda meth=meth, fname=fname, build=build, tag=tag: expect_panic(base, chk, "%s[%s]" % (meth, tag), fname, build)))
     run_kernels(chk, items)
     L1m.settle(chk, [o for o in chk.obs if "panic" in o.name and not o.ok()], lambda: misuse_battery(chk.seed), "misuse panics")
     chk.samples = [o.j() for o in chk.obs if "every feasible path panics" in o.name][:6]
